@@ -27,6 +27,12 @@ MAX_REPORTS = 8
 _printed = tv.fast_printed
 
 
+def _crash_summary(err):
+    keep = [ln.strip() for ln in err.splitlines() if "ERROR: AddressSanitizer" in ln or ln.startswith("SUMMARY:")
+            or "runtime error:" in ln or ln.lstrip().startswith("#0 ") or ln.lstrip().startswith("#1 ") or ln.lstrip().startswith("#2 ")]
+    return " | ".join(keep[:8])[:900] if keep else err[-600:]
+
+
 def _cfg(ctx, name, hist, menu, maxops, anyobj, vlen, invs, prop=""):
     text = ("CONSTANTS Dev = {} Hist = %s Menu = \"%s\" MaxOps = %d AnyObj = %s VLen = %d\nINIT Init\nNEXT Next\nVIEW View\n"
             "INVARIANTS %s\n%s" % ("TRUE" if hist else "FALSE", menu, maxops, "TRUE" if anyobj else "FALSE", vlen, invs, prop))
@@ -186,7 +192,7 @@ def replay_behs(ctx, exe, behs, ninst, what):
                 if hr.rc == 5 or nxt is None or hr.timed_out:
                     raise Broken("%s replay harness failed rc=%s: %s" % (what, hr.rc, hr.err[-2000:]))
                 ctx.violation("%s: the real code crashed (rc=%s) on a TLC-generated case (src=%s): %s" % (
-                    what, hr.rc, nxt["src"], hr.err[-700:]), {"kind": what, "beh": _trim(nxt)})
+                    what, hr.rc, nxt["src"], _crash_summary(hr.err)), {"kind": what, "beh": _trim(nxt)})
     took, chars, reports = {}, set(), 0
     for j in jobs:
         v = results.get(j["id"])
@@ -247,7 +253,7 @@ def record_and_validate(ctx, exe):
     lines = []
     for hr in hrs:
         if hr.crashed:
-            ctx.violation("Baggage crashed (rc=%s) during a random history: %s" % (hr.rc, hr.err[-600:]),
+            ctx.violation("Baggage crashed (rc=%s) during a random history: %s" % (hr.rc, _crash_summary(hr.err)),
                           {"kind": "crash", "tail": hr.lines[-30:]})
             last = max([i for i, ln in enumerate(hr.lines) if '"e":"Cfg"' in ln] or [0])
             lines += hr.lines[:last]
@@ -288,7 +294,7 @@ def arbitrary_bytes(ctx, exe):
             if hr.rc == 5:
                 raise Broken("bytes mode failed: " + hr.err[-500:])
             ctx.violation("BaggagePropagator::Extract crashed / disturbed the context on arbitrary header bytes (rc=%s): %s" % (
-                hr.rc, (hr.err or json.dumps(out[-1:]))[-700:]), {"kind": "bytes", "seed": ctx.seed * 107 + p, "n": n // 4})
+                hr.rc, _crash_summary(hr.err) if hr.err else json.dumps(out[-1:])), {"kind": "bytes", "seed": ctx.seed * 107 + p, "n": n // 4})
         else:
             tot += out[-1]["n"]
     ctx.extra["arbitrary_byte_headers_under_sanitizers"] = tot
@@ -349,6 +355,15 @@ def replay(ctx, path):
         name = "c15_baggage" if kind == "baggage" else "c15_composite"
         exe = build.harness(name, [name + ".cc"], "asan", need_sdk=False)
         b = rep["beh"]
+        # spec sanity run (the stored expectation was computed by these modules)
+        if kind == "baggage":
+            r = tlc.tlc("Baggage", _cfg(ctx, "parse.cfg", False, "parse", 0, True, 1, "ExtractValid"), rundir=ctx.rundir.path,
+                        workers=2, timeout_s=300, tag="parse")
+        else:
+            r = tlc.tlc("Composite", _ccfg(ctx, "ci.cfg", False, "inject", "EveryPartWrote"), rundir=ctx.rundir.path,
+                        workers=2, timeout_s=300, tag="ci")
+        ctx.add_tlc("spec sanity run for the replay", r)
+        tlc.must_ok(r, "spec sanity run")
         p = ctx.rundir.file("one.ndjson")
         with open(p, "w") as f:
             f.write(json.dumps({"id": 0, "inst": b["inst"], "steps": b["steps"]}) + "\n")
